@@ -43,6 +43,8 @@ fn req_of(c: u8, kind: u8) -> (u16, u16, Ipv4Addr, u16) {
     match kind {
         0 => (id0().wrapping_add(c as u16 * 0x1000), 1, Ipv4Addr::LOCALHOST, 8),
         1 => (id0().wrapping_add(0x3000), 1, Ipv4Addr::LOCALHOST, 8),
+        // the (id, seq) both clients use, with no data: the two requests are indistinguishable
+        3 => (id0().wrapping_add(0x3000), 3, Ipv4Addr::LOCALHOST, 0),
         _ => (id0().wrapping_add(c as u16 * 0x1000 + 1), 2, Ipv4Addr::new(10, 255, 255, 1), 4),
     }
 }
@@ -95,6 +97,29 @@ fn inject(s: &RawSock, msg: &[u8]) {
         a.sin_addr.s_addr = u32::from_ne_bytes([127, 0, 0, 1]);
         libc::sendto(s.0, m.as_ptr() as *const libc::c_void, m.len(), 0, &a as *const _ as *const libc::sockaddr, std::mem::size_of::<libc::sockaddr_in>() as u32);
     }
+}
+
+/// hop limit each client asks for (the raw socket is shared by all clients)
+fn ttl_of(c: u8) -> u8 {
+    33 + 11 * c
+}
+
+/// IPv4 packets the harness's raw socket has seen since the last call: (ttl, icmp type, id, seq)
+fn drain_raw(s: &RawSock) -> Vec<(u8, u8, u16, u16)> {
+    let mut out = vec![];
+    let mut buf = [0u8; 2048];
+    loop {
+        let n = unsafe { libc::recv(s.0, buf.as_mut_ptr() as *mut libc::c_void, buf.len(), libc::MSG_DONTWAIT) };
+        if n <= 0 {
+            break;
+        }
+        let p = &buf[..n as usize];
+        let ihl = ((p[0] & 0x0f) as usize) * 4;
+        if p.len() >= ihl + 8 {
+            out.push((p[8], p[ihl], u16::from_be_bytes([p[ihl + 4], p[ihl + 5]]), u16::from_be_bytes([p[ihl + 6], p[ihl + 7]])));
+        }
+    }
+    out
 }
 
 fn echo_reply(id: u16, seq: u16) -> Vec<u8> {
@@ -177,10 +202,15 @@ async fn run_history(hist: &[Op]) -> Result<HistOutcome, Violation> {
     let mut now_ms = 0u64;
     for (step, op) in hist.iter().enumerate() {
         let mut expect: [Vec<(u8, u8, u16, u16)>; 2] = [vec![], vec![]]; // (type, code, id, seq)
+        let mut emitted: Option<(u8, u16, u16)> = None; // (ttl, id, seq) of a request that crosses lo
+        let _ = drain_raw(&raw);
         match op {
             Op::Send(c, kind) => {
                 let (id, seq, dst, size) = req_of(*c, *kind);
-                let sent = muxes[*c as usize].1.write_request(record(id, dst, seq, 64, size)).await;
+                let sent = muxes[*c as usize].1.write_request(record(id, dst, seq, ttl_of(*c), size)).await;
+                if *kind != 2 {
+                    emitted = Some((ttl_of(*c), id, seq));
+                }
                 match sent {
                     Ok(true) => {}
                     other => return Err(fail("request-not-sent", format!("step {step} {op:?}: the echo request was not emitted ({other:?})"))),
@@ -206,6 +236,14 @@ async fn run_history(hist: &[Op]) -> Result<HistOutcome, Violation> {
             }
         }
         door::spin(120).await;
+        if let Some((ttl, id, seq)) = emitted {
+            let seen = drain_raw(&raw);
+            match seen.iter().find(|p| p.1 == 8 && p.2 == id && p.3 == seq) {
+                None => return Err(fail("request-not-sent", format!("step {step} {op:?}: no echo request (id {id:#x}, seq {seq}) crossed lo"))),
+                Some(p) if p.0 != ttl => return Err(fail("wrong-ttl", format!("step {step} {op:?}: the echo request left with TTL {} instead of the requested {ttl}", p.0))),
+                Some(_) => {}
+            }
+        }
         for c in 0..2usize {
             let got: Vec<(u8, u8, u16, u16)> = drain(&mut muxes[c].0, 40)
                 .await
@@ -223,6 +261,7 @@ async fn run_history(hist: &[Op]) -> Result<HistOutcome, Violation> {
                 let kind = if g.len() < want.len() { "report-missing" } else if g.len() > want.len() { "spurious-or-misdirected-report" } else { "wrong-report" };
                 let ctx_kind = match op {
                     Op::Send(_, 1) => "same-id-seq-from-two-clients",
+                    Op::Send(_, 3) => "same-id-seq-no-data-from-two-clients",
                     Op::Send(..) => "own-request",
                     Op::InjectReply(_) => "injected-reply",
                     Op::InjectError(_) => "injected-error",
@@ -233,7 +272,12 @@ async fn run_history(hist: &[Op]) -> Result<HistOutcome, Violation> {
             }
         }
         let (waiters, deadlines) = vh::icmp_waiters_len(&ctx);
-        if waiters != pending.len() || deadlines != pending.len() {
+        // requests without data that share (id, seq) are one and the same key: the later replaces the earlier
+        let shared_nodata = req_of(0, 3);
+        let collapsible = pending.iter().filter(|p| p.1 == shared_nodata.0 && p.2 == shared_nodata.1).count();
+        let distinct = pending.len() - collapsible.saturating_sub(1);
+        let within = |n: usize| n >= distinct && n <= pending.len();
+        if !within(waiters) || !within(deadlines) {
             let how = if waiters > pending.len() || deadlines > pending.len() { "not-forgotten" } else { "lost" };
             return Err(fail(&format!("waiter-table:{how}:{}", if matches!(op, Op::Tick) { "after-timeout" } else { "after-request" }), format!("step {step} {op:?}: {waiters} waiters / {deadlines} deadline entries, {} request(s) within their timeout", pending.len())));
         }
@@ -313,7 +357,7 @@ struct M;
 impl HistoryModel for M {
     type Op = Op;
     fn ops(&self) -> Vec<Op> {
-        vec![Op::Send(0, 0), Op::Send(0, 1), Op::Send(1, 1), Op::Send(0, 2), Op::Send(1, 2), Op::InjectReply(0), Op::InjectError(1), Op::InjectUnrelated, Op::Tick]
+        vec![Op::Send(0, 0), Op::Send(0, 1), Op::Send(1, 1), Op::Send(0, 3), Op::Send(1, 3), Op::Send(0, 2), Op::Send(1, 2), Op::InjectReply(0), Op::InjectError(1), Op::InjectUnrelated, Op::Tick]
     }
     fn run(&self, hist: &[Op]) -> Result<HistOutcome, Violation> {
         rt::run_paused(run_history(hist))
